@@ -154,7 +154,8 @@ def handles_leg(ctx, tools):
                     stats["calls"] += 1
                     stats["handle_leaves"] += len([e for e in exp if e.startswith("newh")])
                     stats["events"] += len(act)
-                    problems = [f.klass for f in F]
+                    # value and heap findings of the general engine belong to C05/C06; here only crashes and handle leaves count
+                    problems = [f.klass for f in F if f.cat == "crash" or f.klass.split(":")[-1].split("/")[-1] in ("own", "borrow")]
                     missing = [e for e in exp if exp.count(e) > act.count(e)]
                     extra = [e for e in act if act.count(e) > exp.count(e)]
                     if missing or extra:
